@@ -495,6 +495,9 @@ def replay_one(rep):
         ar = len(res) if isinstance(res, tuple) else 1
         if ar != 1 + int(rep["return_index"]) + int(rep["return_inverse"]):
             fail(f"unique:{rep['cls']}:empty:arity", f"returns {ar} value(s)", rep)
+        elif type((res if ar > 1 else (res,))[0]) is not cls or (res if ar > 1 else (res,))[0].size != 0 or \
+                any(np.asarray(a).shape != (0,) or np.asarray(a).dtype.kind != "i" for a in (res[1:] if ar > 1 else ())):
+            fail(f"unique:{rep['cls']}:empty:values", "does not return an empty object and empty index arrays", rep)
     elif rep.get("use_symmetry"):
         ph = dict(phases())[rep["point_group"]]
         run_miller_sym(rep["point_group"], ph, rep["xyz"], tuple(rep["shape"]), "replay")
@@ -511,7 +514,7 @@ if "replay" in P:
     replay_one(P["replay"])
     emit({"cases": cases, "fails": fails, "strata": strata, "witness": {}})
 else:
-    # ---- the witnesses of the _refuted theorems, replayed on the implementation
+    # ---- the witnesses / examples of Proofs/C17Witness.v, replayed on the implementation
     w = run_base("Vector3d", np.array([[3, 0, 0], [1, 0, 0], [3, 0, 0], [2, 0, 0]], float), (4,), "witness")
     witness["base_order"] = None if w is None else {"out": w[1], "idx": [int(i) for i in w[2]], "inv": [int(i) for i in w[3]]}
     w = run_base("Vector3d", np.array([[0, 0, 0], [5, 0, 0]], float), (2,), "witness")
@@ -527,6 +530,12 @@ else:
             if ar != 1 + int(ri) + int(rv):
                 fail(f"unique:{cls.__name__}:empty:arity",
                      f"{cls.__name__}.empty().unique(return_index={ri}, return_inverse={rv}) returns {ar} value(s)",
+                     {"cls": cls.__name__, "empty": True, "return_index": ri, "return_inverse": rv})
+            elif type(res[0]) is not cls or res[0].size != 0 or \
+                    any(np.asarray(a).shape != (0,) or np.asarray(a).dtype.kind != "i" for a in res[1:]):
+                fail(f"unique:{cls.__name__}:empty:values",
+                     f"{cls.__name__}.empty().unique(return_index={ri}, return_inverse={rv}) does not return an "
+                     "empty object and empty integer index arrays",
                      {"cls": cls.__name__, "empty": True, "return_index": ri, "return_inverse": rv})
         if e.unique().size != 0:
             fail(f"unique:{cls.__name__}:empty:size", "unique of an empty object is not empty", {"cls": cls.__name__})
